@@ -404,8 +404,9 @@ STD_ASSUME = ["theorems are about the driver models (Drv/*.v) run against the co
 
 def check_C02(tier, seed, t0):
     return wire_check('C02', tier, seed, t0, STD_ASSUME + [
-        "Properties/C02w.v ('havoc'): for epd1in54, epd1in54_v2, epd2in9, epd2in7_v2, epd2in13_v2 (all feature variants) update_frame / update_and_display_frame / clear_frame are correct from EVERY controller state with entry mode 3 and no open frame - window and counter registers universally quantified -; for epd4in2 (x < 256), epd1in02, epd2in7: any aligned partial update followed by a full update is correct; the state hypotheses are checked on every state of the closed reachable sets; refuted for epd2in9b_v4 and epd2in9_v2 (the known findings)"],
-        extra_files=['Properties/C02w.v'])
+        "Properties/C02w.v ('havoc'): for epd1in54, epd1in54_v2, epd2in9, epd2in7_v2, epd2in13_v2 (all feature variants) update_frame / update_and_display_frame / clear_frame are correct from EVERY controller state with entry mode 3 and no open frame - window and counter registers universally quantified -; for epd4in2 (x < 256), epd1in02, epd2in7: any aligned partial update followed by a full update is correct; the state hypotheses are checked on every state of the closed reachable sets; refuted for epd2in9b_v4 and epd2in9_v2 (the known findings)",
+        "12.48in driver: full-frame writes after its histories (partial writes, mode changes, refreshes) judged on its real traces + correspondence with Big/Model.v (theorems: C15)"],
+        extra_files=['Properties/C02w.v'], extra_viol=big_property_check('C02', seed, tier)[0])
 def check_C07(tier, seed, t0):
     return wire_check('C07', tier, seed, t0, STD_ASSUME)
 def check_C08(tier, seed, t0):
@@ -417,15 +418,20 @@ def check_C09(tier, seed, t0):
 def check_C17(tier, seed, t0):
     return wire_check('C17', tier, seed, t0, STD_ASSUME)
 def check_C18(tier, seed, t0):
-    return wire_check('C18', tier, seed, t0, STD_ASSUME)
+    bv, n = big_property_check('C18', seed, tier)
+    return wire_check('C18', tier, seed, t0, STD_ASSUME + ["12.48in driver: defined commands, complete fixed-size blocks and per-sub-display resolution blocks judged on its real traces + correspondence with Big/Model.v on the command/block projection"],
+                      extra_viol=bv, extra_cov=dict(big_ops_judged=n))
 def check_C01(tier, seed, t0):
-    return wire_check('C01', tier, seed, t0, STD_ASSUME + ["12.48in driver: see C15"])
+    bv, n = big_property_check('C01', seed, tier)
+    return wire_check('C01', tier, seed, t0, STD_ASSUME + ["12.48in driver: full-frame writes judged on its real traces (each byte to the sub-display that owns it, in order, one chip selected) + correspondence with Big/Model.v on the pin/byte-stream projection (theorems: C15)"],
+                      extra_viol=bv, extra_cov=dict(big_ops_judged=n))
 def check_C06(tier, seed, t0):
-    return wire_check('C06', tier, seed, t0, STD_ASSUME + ["12.48in partial writes: see C15",
+    bv, n = big_property_check('C06', seed, tier)
+    return wire_check('C06', tier, seed, t0, STD_ASSUME + ["12.48in partial writes: per-sub-display window blocks (intersection, mirrored) and window bytes judged on its real traces (seam-straddling, boundary and whole-sub-display windows; 1-row, k-row and full buffers) + correspondence with Big/Model.v (theorems: C15)",
                       "Properties/C06w.v: for epd4in2 (x < 256), epd1in02, epd2in7, epd2in7b the window theorems hold for ALL aligned in-panel windows, all buffers, every idle controller state (universally quantified x y w h), not only the alphabet's windows",
                       "Properties/C06x.v: for the partial entry points with listed findings (epd1in54, epd1in54_v2, epd2in9, epd2in13_v2, epd2in9_v2, epd2in7_v2, epd2in66b, epd5in83b_v2, epd4in2 x>=256, epd7in5b_v2, epd2in9d) the EXACT clause list chk_c06 reports and the geometry programmed are proved for ALL aligned in-panel windows, every buffer, every havoc'd controller state - the finding classes are theorems, not samples",
                       "Properties/C06h.v: the state hypotheses of C06w/C06x (ssd_havoc / idle) are checked on every state of the closed reachable sets, so the all-window statements hold after EVERY history: history and window both universally quantified"],
-                      extra_files=['Properties/C06w.v', 'Properties/C06x.v', 'Properties/C06h.v'])
+                      extra_files=['Properties/C06w.v', 'Properties/C06x.v', 'Properties/C06h.v'], extra_viol=bv, extra_cov=dict(big_ops_judged=n))
 def check_C05(tier, seed, t0):
     bv, n = big_property_check('C05', seed, tier)
     return wire_check('C05', tier, seed, t0, STD_ASSUME + ["real time is abstracted to poll counts (virtual clock of the mocks)",
@@ -433,8 +439,10 @@ def check_C05(tier, seed, t0):
                       extra_viol=bv, extra_cov=dict(big_ops_judged=n))
 
 def check_C11(tier, seed, t0):
+    bv, n = big_property_check('C11', seed, tier)
     return wire_check('C11', tier, seed, t0, STD_ASSUME + ["virtual clock: delays are the DelayNs calls the mocks record; real time is outside the model",
-                                                          "12.48in reset: see C15 (pins) and the big correspondence"])
+                                                          "12.48in reset(): pulse shape of both reset lines judged on its real traces + correspondence with Big/Model.v on the reset projection"],
+                      extra_viol=bv, extra_cov=dict(big_resets_judged=n))
 
 # ---------------------------------------------------------------------------------------------- C12
 def scribble_violations(seed, tier):
@@ -480,6 +488,32 @@ def scribble_violations(seed, tier):
             viol += v
             nops += n
             ncases += c
+    # the 12.48in driver (own harness): same experiment on its suites, compared bus write by bus write
+    import gen_big
+    cases = []
+    for sname in ('basic', 'chain', 'rand'):
+        cases += gen_big.suite(sname, gen.Rng(seed * 1000003 + corr.hash_name('epd12in48b_v2' + sname + 'scribble')))
+    outs = []
+    for flag in (0, 1):
+        path = os.path.join(odir, "epd12in48b_v2-%d.script" % flag)
+        open(path, 'w').write('\n'.join(c.replace('scribble=0', 'scribble=%d' % flag) for c in cases) + '\n')
+        r = subprocess.run([hexe, 'run', path], stdout=subprocess.PIPE, stderr=subprocess.PIPE, text=True, env=dict(corr.ENV, EPD_FEAT='v3'))
+        outs.append(corr.parse_out(r.stdout))
+    def writes(ls):
+        return [l for l in ls if l.split(' ')[0] in ('W', 'WX')]
+    A, B = outs
+    for cid, ops in A.items():
+        for k, op in enumerate(ops):
+            nops += 1
+            bop = B.get(cid, [])
+            other = bop[k] if k < len(bop) else None
+            if other is None or writes(op[2]) != writes(other[2]) or op[3] != other[3]:
+                viol.append(dict(panel='epd12in48b_v2', site=op[1], clause='scribble-changes-transfer',
+                                 detail="call #%d of case %s transmits different bytes when earlier buffers are overwritten after their call returned" % (op[0], cid),
+                                 replay=dict(kind='scribble', panel='epd12in48b_v2', case=cid, op_index=op[0], op=op[1],
+                                             script=vlib.case_script(dict(script=os.path.join(odir, "epd12in48b_v2-1.script")), cid))))
+                break
+    ncases += len(cases)
     return viol, nops, ncases
 
 def check_C12(tier, seed, t0):
@@ -582,7 +616,8 @@ def check_C04(tier, seed, t0):
     run = corr_run(suites_for(tier), seed, tier)
     v1, n1 = fault_oracle(run)
     v2, n2 = recovery_oracle(run, seed)
-    viol = v1 + v2
+    bv, bn = big_property_check('C04', seed, tier)
+    viol = v1 + v2 + bv
     flagged = {(v['panel'], v['site']) for v in viol}
     # failure handling differs: the op behaves like the model without faults but not under an injected fault
     plain = {(m['panel'], m['op']) for m in run['mismatches'] if m['suite'] not in ('fault', 'faultdense')}
@@ -593,6 +628,7 @@ def check_C04(tier, seed, t0):
         viol.append(proof_violation('C04', proof))
     cov = base_coverage(run)
     cov['faulted_calls_checked'] = n1
+    cov['big_faulted_calls_checked'] = bn
     cov['recovery_suffixes_checked'] = n2
     cov['distinct_nontrivial'] = n1
     cov['rule'] = ("fault suites: for every op of every panel, the k-th SPI transfer of the call (or of new) fails, for k at every command "
@@ -604,7 +640,7 @@ def check_C04(tier, seed, t0):
                    "excluded: their number depends on the busy line). distinct_nontrivial = calls in which the injected failure was actually reached")
     return finish('C04', tier, seed, t0, proof, viol, cov,
                   ["theorems: fail-stop of Hal.expand for ALL traces and fault indices (HalProofs.expand_failstop) and the recovery theorem over every driver-field valuation the models can be left in (Proof/Recover.v)",
-                   "12.48in: chip selects left asserted after a failed write are a known finding (C15_release_after_error_refuted)"])
+                   "12.48in: every bus write of every call fails in turn; on its real traces the failed write is the last bus activity and the error is returned; results and write sequences compared with Big/Model.v (theorem: C15_failstop); chip selects left asserted after a failed write are a known finding of C15 (C15_release_after_error_refuted)"])
 
 # ---------------------------------------------------------------------------------------------- C15 (12.48in)
 BIG_RECTS = {'s2': (0, 0, 648, 492), 'm2': (648, 0, 656, 492), 'm1': (0, 492, 648, 492), 's1': (648, 492, 656, 492)}
@@ -979,17 +1015,158 @@ def big_state_oracle(script_text, real_text):
                 break
     return v5, v9, nops
 
+def big_fault_oracle(script_text, real_text):
+    """C04 on the REAL traces of the 12.48in driver: the failed bus write is the last SPI activity of the call and the
+    call returns the error (what the lines are left at after an error is C15's clause / known finding)."""
+    viol, n = [], 0
+    R = corr.parse_out(real_text)
+    for cid, ops in R.items():
+        cidk = cid.split(' ')[0]
+        for (i, name, lines, res) in ops:
+            fa = next((j for j, l in enumerate(lines) if l.split(' ')[0] == 'WX'), None)
+            if fa is None:
+                continue
+            n += 1
+            later = [l[:40] for l in lines[fa + 1:] if l.split(' ')[0] in ('W', 'WX') or (l.startswith('S ') and not l.startswith('S flush'))]
+            clause = None
+            if res is None or not res.startswith('ERR'):
+                clause = 'failure-not-returned:' + str(res).split(' ')[0]
+            elif later:
+                clause = 'transfer-after-failure'
+            if clause:
+                viol.append(dict(panel='epd12in48b_v2', site=name, clause=clause,
+                                 detail="%s call #%d %s: %s (after the failed write: %s)" % (cidk, i, name, res, later[:2]),
+                                 replay=dict(kind='trace', panel='epd12in48b_v2', feat='v3', op_index=i, script=case_script_text(script_text, cidk))))
+    return viol, n
+
+def big_reset_oracle(script_text, real_text):
+    """C11 on the REAL traces of the 12.48in driver's reset(): each reset line goes high, low for a non-zero time the
+    driver waits out, high again, then a non-zero settling time; no SPI traffic in the call (so none while a line is
+    low); both lines are left high."""
+    viol, n = [], 0
+    R = corr.parse_out(real_text)
+    for cid, ops in R.items():
+        cidk = cid.split(' ')[0]
+        for (i, name, lines, res) in ops:
+            if name != 'reset' or res is None or not res.startswith('OK'):
+                continue
+            n += 1
+            clause = None
+            st = {}
+            for l in lines:
+                t = l.split(' ')
+                if t[0] == 'N' and t[1].endswith('_rst'):
+                    q = st.setdefault(t[1], dict(seq=[], wait=0))
+                    q['seq'].append([int(t[2]), 0])
+                elif t[0] == 'T':
+                    mult = {'n': 1, 'u': 1000, 'm': 1000000}[t[1]]
+                    for q in st.values():
+                        if q['seq']:
+                            q['seq'][-1][1] += int(t[2]) * mult
+                elif t[0] in ('W', 'WX') or (t[0] == 'S' and t[1] != 'flush'):
+                    clause = 'spi-traffic-during-reset'
+            for ln in ('m1s1_rst', 'm2s2_rst'):
+                seq = st.get(ln, {}).get('seq', [])
+                lv = [a for a, _ in seq]
+                if lv[-3:] != [1, 0, 1] :
+                    clause = clause or 'no-reset-pulse:' + ln
+                elif seq[-2][1] <= 0:
+                    clause = clause or 'reset-low-not-waited-out:' + ln
+                elif seq[-1][1] <= 0:
+                    clause = clause or 'no-settling-time:' + ln
+            if clause:
+                viol.append(dict(panel='epd12in48b_v2', site=name, clause=clause, detail="%s call #%d reset: %s" % (cidk, i, clause),
+                                 replay=dict(kind='trace', panel='epd12in48b_v2', feat='v3', op_index=i, script=case_script_text(script_text, cidk))))
+    return viol, n
+
+def big_rst_project(lines):
+    out = []
+    for l in lines:
+        t = l.split(' ')
+        if (t[0] == 'N' and t[1].endswith('_rst')) or t[0] == 'T':
+            out.append(l)
+        elif t[0] in ('W', 'WX'):
+            out.append('W')
+    return out
+
+BIG_FULL_OPS = ('write_data1', 'write_data2', 'refresh_display', 'begin_refresh_display')
+BIG_PART_OPS = ('write_data1_partial', 'write_data2_partial', 'refresh_display_partial', 'begin_refresh_display_partial')
+
+BIG_DEFINED_CMDS = {0x00, 0x01, 0x02, 0x04, 0x06, 0x07, 0x10, 0x12, 0x13, 0x15, 0x20, 0x21, 0x22, 0x23, 0x24, 0x25, 0x2B, 0x30, 0x40, 0x41,
+                    0x50, 0x60, 0x61, 0x65, 0x71, 0x82, 0x90, 0x91, 0x92, 0xE0, 0xE3, 0xE5}
+BIG_BLOCK_LEN = {0x61: (4,), 0x90: (9,), 0x07: (1,), 0x50: (2,), 0x60: (1,), 0x65: (4,), 0x00: (1, 2), 0x01: (4, 5), 0x06: (3, 4), 0x15: (1,), 0x30: (1,),
+                 0x82: (1,), 0xE0: (1,), 0xE3: (1,), 0xE5: (1,)}
+
+def big_cmd_runs(lines):
+    """-> [(selected chips, cmd, data bytes or None when long, data length)] for one call"""
+    pins, out = {}, []
+    for l in lines:
+        t = l.split(' ')
+        if t[0] == 'N':
+            pins[t[1]] = int(t[2])
+        elif t[0] == 'W':
+            sel = tuple(c for c in BIG_CHIPS if pins.get(c + '_cs') == 0)
+            need = {('m1s1_dc' if c in ('m1', 's1') else 'm2s2_dc') for c in sel}
+            low = bool(need) and all(pins.get(d) == 0 for d in need)
+            n = int(t[1])
+            hx = t[4] if len(t) > 4 else None
+            if low and n == 1 and hx:
+                out.append([sel, int(hx[:2], 16), [], 0])
+            elif out and out[-1][0] == sel:
+                out[-1][3] += n
+                if hx is not None and out[-1][2] is not None and len(out[-1][2]) + n <= 32:
+                    out[-1][2] += [int(hx[k:k + 2], 16) for k in range(0, len(hx), 2)]
+                else:
+                    out[-1][2] = None
+    return [tuple(o) for o in out]
+
+def big_cmdlen_project(lines):
+    return [(sel, c, (tuple(d) if d is not None and c in BIG_BLOCK_LEN else None), n) for (sel, c, d, n) in big_cmd_runs(lines)]
+
+def big_conformance_oracle(script_text, real_text):
+    """C18 on the REAL traces of the 12.48in driver: every command byte is one the controller family defines, fixed-size
+    blocks are complete, and a resolution block describes exactly the sub-display(s) it is sent to."""
+    viol, nops = [], 0
+    R = corr.parse_out(real_text)
+    for cid, ops in R.items():
+        cidk = cid.split(' ')[0]
+        for (i, name, lines, res) in ops:
+            nops += 1
+            if res is None or not res.startswith('OK'):
+                continue
+            clause = None
+            for (sel, c, d, n) in big_cmd_runs(lines):
+                if c not in BIG_DEFINED_CMDS:
+                    clause = 'undefined-command cmd=%02x' % c
+                elif c in BIG_BLOCK_LEN and n not in BIG_BLOCK_LEN[c]:
+                    clause = 'block-length cmd=%02x got=%d' % (c, n)
+                elif c == 0x61 and d is not None and len(d) == 4:
+                    for chip in sel:
+                        rx, ry, rw, rh = BIG_RECTS[chip]
+                        if d != [rw >> 8, rw & 0xFF, rh >> 8, rh & 0xFF]:
+                            clause = 'geometry-register cmd=61 chip=%s got=%s' % (chip, d)
+                if clause:
+                    break
+            if clause:
+                viol.append(dict(panel='epd12in48b_v2', site=name, clause=clause, detail="%s call #%d %s: %s" % (cidk, i, name, clause),
+                                 replay=dict(kind='trace', panel='epd12in48b_v2', feat='v3', op_index=i, script=case_script_text(script_text, cidk))))
+    return viol, nops
+
 def big_property_check(prop, seed, tier):
     """correspondence of the 12.48in driver on the property's projection + the state oracle -> violations, stats"""
     import subprocess, glob as _g
     from panels import BIG
-    kind = {'C05': 'busy', 'C09': 'power', 'C10': 'frame'}[prop]
+    kind = {'C05': 'busy', 'C09': 'power', 'C10': 'frame', 'C01': 'full', 'C06': 'part', 'C04': 'fault', 'C11': 'rst', 'C02': 'full', 'C18': 'cmdlen'}[prop]
     viol = []
     hexe, err = corr.build_harness('v3')
     mexe, log = corr.build_model()
     if not hexe or not mexe:
         return [dict(panel='epd12in48b_v2', site='build', clause='build-failed', no_input=True, detail=(err + log)[-800:], replay=dict(kind='build'))], 0
     suites = ['basic', 'chain', 'env', 'rand']
+    if prop == 'C04':
+        suites = ['fault'] + (['faultdense'] if tier == 'thorough' else [])
+    elif prop in ('C01', 'C02', 'C06', 'C11', 'C18'):
+        suites = ['basic', 'chain', 'rand']
     tag = 'big' + prop.lower()
     total, mism, counts, errs = corr.run_suites([BIG], 'v3', suites, seed, hexe, mexe, tag=tag)
     nor = 0
@@ -998,6 +1175,19 @@ def big_property_check(prop, seed, tier):
         if prop == 'C10':
             vf, n = big_frame_oracle(open(sp).read(), r.stdout)
             viol += vf
+        elif prop == 'C04':
+            vf, n = big_fault_oracle(open(sp).read(), r.stdout)
+            viol += vf
+        elif prop == 'C11':
+            vf, n = big_reset_oracle(open(sp).read(), r.stdout)
+            viol += vf
+        elif prop == 'C18':
+            vf, n = big_conformance_oracle(open(sp).read(), r.stdout)
+            viol += vf
+        elif prop in ('C01', 'C02', 'C06'):
+            vall, n = big_oracle(open(sp).read(), r.stdout)
+            opsel = BIG_PART_OPS if prop == 'C06' else BIG_FULL_OPS
+            viol += [v for v in vall if v['site'] in opsel and v['clause'] in ('tiling', 'partial-window-block', 'pixel-data-to-several-chips')]
         else:
             v5, v9, n = big_state_oracle(open(sp).read(), r.stdout)
             viol += v5 if prop == 'C05' else v9
@@ -1006,6 +1196,17 @@ def big_property_check(prop, seed, tier):
     for m in mism:
         if kind == 'frame':
             differs = big_frame_project(m.real) != big_frame_project(m.model) and m.opname not in flagged
+        elif kind in ('full', 'part'):
+            differs = m.opname in (BIG_FULL_OPS if kind == 'full' else BIG_PART_OPS) and m.opname not in flagged and \
+                      (big_c15_project(m.real) != big_c15_project(m.model) or m.rres != m.mres)
+        elif kind == 'fault':
+            def wseq(ls):
+                return [l.split(' ')[:2] for l in ls if l.split(' ')[0] in ('W', 'WX')]
+            differs = m.opname not in flagged and (m.rres != m.mres or wseq(m.real) != wseq(m.model))
+        elif kind == 'cmdlen':
+            differs = m.opname not in flagged and big_cmdlen_project(m.real) != big_cmdlen_project(m.model)
+        elif kind == 'rst':
+            differs = m.opname == 'reset' and m.opname not in flagged and big_rst_project(m.real) != big_rst_project(m.model)
         else:
             differs = big_project(m.real, kind) != big_project(m.model, kind)
         if differs:
